@@ -164,6 +164,34 @@ def run(cx: Cx):
         else:
             cx.ok('R-GUARD', f"{fnr.qualname}: no direct raise on the present branch", where=cx.where(fnr), function=fnr.qualname)
 
+    # ------------------------------------------------------------ clause 4b: a rejection does not need a model
+    # an environment may have no model (Environment(None), as the tests build it): on the paths that end in the documented
+    # rejection nothing reads through self.model - otherwise the operation fails with AttributeError instead
+    from sa.terms import subterms_of
+    for fnr in (add, rem, get):
+        me_ = Sym(fnr.params[0])
+        hit = None
+        for p in cx.walker.paths(fnr, WalkOptions(unroll=1)):
+            if not (p.end == 'raise' and p.last.data.get('direct') and p.last.data.get('exc') in ('DuplicateAgentError', 'AgentNotFoundError')):
+                continue
+            for e in p.events[:-1]:
+                terms_ = [e.data.get('value'), e.data.get('recv')] + list(e.data.get('args') or ()) if e.kind in ('assign', 'call') else []
+                for t_ in terms_:
+                    if t_ is None:
+                        continue
+                    if any(isinstance(y, Attr) and isinstance(strip_versions(y.base), Attr) and strip_versions(y.base).name == 'model'
+                           and strip_versions(strip_versions(y.base).base) == me_ for y in subterms_of(t_)):
+                        hit = hit or (p, e, t_)
+        if hit:
+            p, e, t_ = hit
+            cx.violation('R-ORDER', fnr.qualname, 'rejection-does-not-need-a-model',
+                         f"{fnr.qualname} reads {t_!r} (line {e.line}) before it raises {p.last.data.get('exc')}: in an environment without a "
+                         f"model the rejected operation ends in AttributeError instead of the documented error", where=cx.where(fnr, e.line),
+                         path=p.lines())
+        else:
+            cx.ok('R-ORDER', f"{fnr.name}: the documented rejection is reached without reading through self.model", where=cx.where(fnr),
+                  function=fnr.qualname)
+
     # ------------------------------------------------------------ clause 5: the documented error names the environment it came from
     # the error object is built from (identifier, self): building it from another object (self.model.environment) fails with
     # AttributeError in an environment without a model and names the wrong environment in a second environment of a model
